@@ -10,11 +10,13 @@ MANIFEST = {
                  "senc/saiz/saio and C05's SetTrunDataOffsets (read-only imports) + differential correspondence (extracted OCaml, "
                  "instantiated with an AES-128 written in Gallina from FIPS-197, vs the Go code incl. the encrypted bytes and the encoded "
                  "boxes) + failing-input search on real EncryptFragment output",
-    "level_text": "Theorems (coq/c07/C07Theorems.v, 34, all closed), for all NALU layouts, sizes, keys, IVs and EVERY block cipher E: for EVERY "
+    "level_text": "Theorems (coq/c07/C07Theorems.v, 36, all closed), for all NALU layouts, sizes, keys, IVs and EVERY block cipher E: for EVERY "
                   "BYTE STRING Get(AVC|HEVC)ProtectRanges accept (no hypothesis that it is a concatenation of NAL units; any scheme; both "
                   "codecs over the C15 slice-header parsers) the sub-sample entries add up to the size of the sample, clear counts fit 16 "
                   "bits and there is at least one entry (C07_ranges_cover_any_bytes: the prot_in_sample / covered-r hypotheses of the "
-                  "fragment theorems for the functions EncryptFragment really calls), and the loop ends within |sample| iterations "
+                  "fragment theorems for the functions EncryptFragment really calls: C07_fragment_video_closed / "
+                  "C07_no_counter_reuse_closed state them with NO hypothesis on the protection function and for any sample bytes), "
+                  "and the loop ends within |sample| iterations "
                   "(C07_ranges_terminate); both false of the text before /repo fix 2ef93b3 (uint32 sum pos+naluLength wrapped: the loop "
                   "never ended / panicked / returned entries adding up to 2^32+size; C07_wrap_pinned_refuted, finding C07-F6); the "
                   "current text returns what the old text returned or refuses, and equals it on every concatenation of NAL units below "
